@@ -23,7 +23,7 @@ class C16(Prop):
     pkg = "hcore"
     binname = "c16"
     quick_cases = 2500
-    thorough_cases = 40000
+    thorough_cases = 20000
     shard = 160
     design_ref = "DESIGN.md 4 C16"
     technique = ("Coq proof about a hand-written executable model of reservoir.rs: refinement of the A/B reservoir to a per-cycle "
@@ -31,7 +31,9 @@ class C16(Prop):
                  "number of draws) of the choice sequences that retain each stream position; an interleaving machine with one step per "
                  "yield site for push || consume. Correspondence: the real AtomicSamplingReservoir is run with a scripted replacement of "
                  "the random draw that records every requested bound (sequential histories), and under the deterministic scheduler "
-                 "through yield points 1601-1612 (schedule replay); outputs compared with the model per operation / per step")
+                 "through yield points 1601-1612 (schedule replay); outputs compared with the model per operation / per step. Two free-running "
+                 "engines (no script, no scheduler, real RNG) run as sanity checks: per-position retention frequencies within 6 sigma of cap/n, "
+                 "and a pushers || consumer stress judged only by what holds even inside the open late-push class")
     level_text = ("Theorems (Coq). Sequential, all capacities incl. 0 and 1, all histories, all f64 bit patterns, all choices: the model of "
                   "Reservoir/Drain/AtomicSamplingReservoir (after the fix) equals the reference semantics (C16_model_meets_spec); a drain after "
                   "any earlier history reports n = pushes since the previous drain, len = min(n, cap), only values of this cycle, all of them in "
@@ -41,7 +43,8 @@ class C16(Prop):
                   "(C16_uniform_retention, C16_counting_functions_count, C16_choice_sequences_*), with the retained set computed by the model's "
                   "push (C16_retention_runs_model_push). The code as found is refuted on both counts (cap=1,n=2; cap=0). Concurrent: for every "
                   "schedule, thread count and program, no push panics and every drain reports len = min(count read, cap) and at most len values "
-                  "(C16_concurrent_accounting_except_late_push_partial); the late-push pattern breaks per-drain accounting (C16_late_push_refutes).")
+                  "(C16_concurrent_accounting_except_late_push_partial), consumers exclude each other and while a drain is between its side swap "
+                  "and its count reset use_primary selects the other side (C16_consumers_exclusive_and_side_stable); the late-push pattern breaks per-drain accounting (C16_late_push_refutes).")
     level_note = ("PARTIAL for the concurrent clause: the statement 'outside the late-push class every drain accounts exactly for the pushes of its "
                   "window' is NOT proved in Coq; it is evaluated by spec_ok on every replayed schedule (the implementation's own traces) and "
                   "held on all of them, failing only inside the open known class C16-late-push. Uniformity is conditional on rand's random_range "
@@ -176,10 +179,12 @@ class C16(Prop):
         cases = []
         nbig = max(1, n // 400)
         nthr = n * 2 // 5
-        for i in range(n - nthr):
-            cases.append(self.gen_seq(rng, big=(i < nbig)))
+        for i in range(n - nthr - nbig):
+            cases.append(self.gen_seq(rng))
         for i in range(nthr):
             cases.append(self.gen_thr(rng))
+        for i in range(nbig):                      # default-capacity cases last (expensive to shrink)
+            cases.append(self.gen_seq(rng, big=True))
         return cases
 
     # ------------------------------------------------------------------ driver I/O
@@ -260,7 +265,7 @@ class C16(Prop):
         sanity check of the un-scripted path only; the uniformity claim itself is the Coq theorem."""
         from .core import run_impl
         trials = 40000 if ctx["tier"] == "quick" else 1000000
-        confs = [(1, 2), (1, 3), (2, 5), (3, 4), (8, 11)]
+        confs = [(1, 2), (1, 3), (2, 5), (2, 6), (3, 4), (8, 11)]
         rc, outs, err = run_impl(ctx["binpath"], ["R %d %d %d |" % (cap, n, trials) for cap, n in confs], timeout=900)
         viol, rows = [], []
         if rc != 0 or len(outs) != len(confs):
@@ -277,6 +282,26 @@ class C16(Prop):
                              "or a drain reported a wrong length/sample rate (%d anomalies)" % (worst, bad),
                              dict(cap=cap, n=n, trials=trials, counts=counts, expected=trials * p, anomalies=bad)))
         ctx["coverage"]["free_running_trials"] = rows
+        # free-running stress: real threads, no scheduler callback, real RNG; pushers || a consumer that
+        # keeps draining.  Judged in the driver: only what holds even inside the open late-push class
+        # (never more than cap / len() values per drain, every yielded value was pushed at some time
+        # (or is the never-written initial 0.0 a late push exposes: counted, not judged), sample_rate in
+        # (0,1], no panic) and, after join + flushing both sides, a quiescent cycle behaves sequentially.
+        per = 100000 if ctx["tier"] == "quick" else 1000000
+        sconfs = [(0, 2, per // 4), (1, 3, per), (2, 3, per), (8, 2, per), (DEFAULT_CAP, 3, per)]
+        rc, outs, err = run_impl(ctx["binpath"], ["X %d %d %d 100 |" % c for c in sconfs], timeout=900)
+        srows = []
+        if rc != 0 or len(outs) != len(sconfs):
+            viol.append(("stress", "free-running stress did not complete (panic/abort in the reservoir?): rc=%s %s" % (rc, err[-500:]),
+                         dict(no_failing_input=True)))
+        else:
+            for (cap, pushers, per_), line in zip(sconfs, outs):
+                kv = dict(t.split("=", 1) for t in line.split()[1:])
+                srows.append(dict(cap=cap, pushers=pushers, pushes_each=per_, **kv))
+                if kv["panics"] != "0" or kv["bad"] != "-":
+                    viol.append(("stress", "free-running pushers || consumer: %s (panics=%s)" % (kv["bad"], kv["panics"]),
+                                 dict(cap=cap, pushers=pushers, pushes_each=per_, observed=kv)))
+        ctx["coverage"]["free_running_stress"] = srows
         return viol
 
     # ------------------------------------------------------------------ bookkeeping
